@@ -442,6 +442,45 @@ def rows(S):
 
     out.append(Row("jetexpand with pytree initial values of an order-3 ODE", "jet expansion", pytree_order, "ValueError", [], mode="raise"))
 
+    # --- rows added after the second audit of the unchanged tree (hunter H9)
+    # (f) Taylor-coefficient routines: the number of initial values must be the order of the ODE (concrete), and their shapes must agree
+    for rn, kw in (("jetexpand_ode_padded_scan", {"num": 2}), ("jetexpand_ode_unroll", {"num": 2}), ("jetexpand_ode_via_jvp", {"num": 2})):
+        def je_count(it, rn=rn, kw=kw):
+            alg = it.call(it.function_value(f"{JETEXP}.{rn}"), [], kw, "<harness>")
+            ode2 = it.instantiate(it.class_value(PROBLEMS + ".JetOde"), [A("vf")], dict(jacobian=A("jac"), num_tcoeffs_in_args=2, tcoeff_indices_output=[2]), "<harness>")
+            it.call(alg, [ode2, [arr("u0"), arr("u1"), arr("u2")]], {"t": A("t")}, "<harness>")
+
+        out.append(Row(f"{rn}: more initial values than the order of the ODE", "jet expansion", je_count, "ValueError", [], mode="raise", sibling="jetexpand-inits-count"))
+
+        def je_shapes(it, rn=rn, kw=kw):
+            alg = it.call(it.function_value(f"{JETEXP}.{rn}"), [], kw, "<harness>")
+            ode2 = it.instantiate(it.class_value(PROBLEMS + ".JetOde"), [A("vf")], dict(jacobian=A("jac"), num_tcoeffs_in_args=2, tcoeff_indices_output=[2]), "<harness>")
+            it.call(alg, [ode2, [arr("u0"), arr("bad")]], {"t": A("t")}, "<harness>")
+
+        out.append(Row(f"{rn}: initial values of different shapes", "jet expansion", je_shapes, "ValueError", ["bad"], sibling="jetexpand-inits-shapes", cond_pred=compares_shape_of({"bad"}), allow_conjunction=True))
+
+    # (g) ODE descriptions: the vector field's output must be shaped like the state
+    for wrapper, nargs in (("ode", 1), ("ode_order_two", 2), ("ode_order_arbitrary", 2)):
+        def vf_out(it, wrapper=wrapper, nargs=nargs):
+            fn = HarnessFn("user_vf", lambda itp, a, kw, site: arr("bad"))
+            mk = it.function_value(f"{PROBLEMS}.{wrapper}")
+            kw = {"num_tcoeffs_in_args": 2} if wrapper == "ode_order_arbitrary" else {}
+            ode_ = it.call(mk, [fn], kw, "<harness>")
+            it.call(ode_.fields["vector_field"], [], {"jet_coords": [arr(f"c{i}") for i in range(nargs)], "t": A("t")}, "<harness>")
+
+        out.append(Row(f"{wrapper}(f): output of f not shaped like the state", "ODE descriptions", vf_out, "ValueError", ["bad"], sibling="vf-output-shape", cond_pred=compares_shape_of({"bad"})))
+
+    # (h) error norms: a tolerance must be a scalar or shaped like the reference
+    for nm in ("error_norm_scale_then_rms", "error_norm_rms_then_scale"):
+        for which in ("atol", "rtol"):
+            def tol_shape(it, nm=nm, which=which):
+                norm = it.call(it.function_value(f"{SOLVERS}.{nm}"), [], {}, "<harness>")
+                kw = {"atol": arr("atol"), "rtol": arr("rtol")}
+                kw[which] = arr("bad")
+                it.call(norm, [arr("err"), arr("ref")], kw, "<harness>")
+
+            out.append(Row(f"{nm}: {which} neither a scalar nor shaped like the reference", "error norms", tol_shape, "ValueError", ["bad"], sibling=f"tolerance-shape-{which}", cond_pred=compares_shape_of({"bad"})))
+
     # losses
     def loss_terminal(it):
         loss = it.call(it.function_value(f"{EST}.loss_lml_terminal_values"), [], {}, "<harness>")
@@ -649,7 +688,7 @@ def dtype_rules(chk, S):
     from ..harness import DENSE, A, method
 
     r4 = chk.rule("R-C20-4", "wrong dtype that is not rejected is promoted: every unravel closure that maps the flat state back to the caller's container is derived from a "
-                  "dtype-homogeneous example (each leaf cast to the dtype of the raveled container), never from the raw container", floor=1)
+                  "dtype-homogeneous example (each leaf cast to the dtype of the raveled container), never from the raw container", floor=4)
     it = S.interp()
     cv = it.class_value(DENSE + ".DenseTreeFlatten")
     x = A("example")
@@ -670,3 +709,58 @@ def dtype_rules(chk, S):
     r4.require(ok, "DenseTreeFlatten.from_example unravel closure", "derived from the container with every leaf cast to the common dtype",
                f"unravel closure of {T.show(src, 5)} (leaves cast to {T.show(u.kwargs.get('cast_to'), 3)}): ravel_pytree's unravel() restores each leaf's own dtype, so a container with mixed dtypes "
                "(integer initial values, float derivatives) has its mean truncated whenever it is unflattened", DENSE)
+    # the siblings derive a per-coefficient closure from the first coefficient: its leaves must be cast to the dtype of the whole raveled container
+    from ..harness import BLOCK, ISO
+
+    for mod, cls in ((ISO, "IsotropicTreeFlatten"), (BLOCK, "BlockDiagTreeFlatten")):
+        it2 = S.interp()
+        xs = [T.atom("c0", array=False), T.atom("c1", array=False)]
+        name = f"{cls}.from_example unravel closure"
+        try:
+            tf = it2.call(method(it2, it2.class_value(f"{mod}.{cls}"), "from_example"), [xs], {}, "<harness>")
+        except (AnalysisError, RaiseSignal) as e:
+            r4.unknown(name, f"not analysed: {e}", mod)
+            continue
+        S.absorb(it2)
+        ul = tf.fields.get("unravel_leaf") if hasattr(tf, "fields") else None
+        want = T.mk("attr", (T.mk("tree.ravel", (xs,)), "dtype"))
+        ok2 = isinstance(ul, T.Term) and ul.op == "unravel_of" and ul.args[0] is xs[0] and ul.kwargs.get("cast_to") is want
+        r4.require(ok2, name, "closure of the first coefficient with its leaves cast to the dtype of the raveled container",
+                   f"unravel_leaf = {T.show(ul, 4)}: ravel_pytree's unravel() restores each leaf's own dtype, so a coefficient with an integer-typed leaf next to float leaves is truncated whenever the mean is unflattened", mod)
+    # the dense exponential prior differentiates the drift through an unflatten of the Taylor coefficients
+    it3 = S.interp()
+    seen = []
+
+    def jac_hook(itp, args, kwargs, site, _seen=seen):
+        from ..interp import _MISSING
+
+        _seen.append(args[0])
+        return _MISSING
+
+    name = "state_space_model_dense.prior_exponential_diffuse drift Jacobian"
+    try:
+        from ..harness import PROBLEMS
+
+        ssm = it3.instantiate(it3.class_value(DENSE + ".state_space_model_dense"), [], {}, "<harness>")
+        ode = it3.instantiate(it3.class_value(PROBLEMS + ".JetOdeAutonomous"), [A("auto")], dict(jacobian=A("jac"), num_tcoeffs_in_args=2, tcoeff_indices_output=[2]), "<harness>")
+        mean = [T.atom("m0", array=False), T.atom("m1", array=False)]
+        std = [T.atom("s0", array=False), T.atom("s1", array=False)]
+        prior = call(it3, method(it3, ssm, "prior_exponential_diffuse"), ode, mean, std)
+        a_ = prior.fields.get("A")
+        jacs = [t for t in T.subterms(a_) if isinstance(t, T.Term) and t.op == "jac_apply"]
+        okj = False
+        det = f"{len(jacs)} Jacobian applications"
+        if len(jacs) == 1:
+            # evaluate the differentiated callable on a probe: the user's drift must see the coefficients un-flattened by a cast closure
+            probe = T.atom("probe_flat")
+            w = jacs[0].args[0]
+            val = it3.call(w.fn if hasattr(w, "fn") else w, [probe], {}, "<harness>")
+            unr = [t for t in T.subterms(val) if isinstance(t, T.Term) and t.op == "unravel_of"]
+            want = T.mk("attr", (T.mk("tree.ravel", (mean,)), "dtype"))
+            okj = bool(unr) and all(u_.kwargs.get("cast_to") is want for u_ in unr)
+            det = f"closures {[T.show(u_, 3) for u_ in unr]}"
+        r4.require(okj, name, "the drift is differentiated through an unflatten whose leaves were cast to the common dtype",
+                   f"{det}: the Jacobian with respect to an integer-typed leaf is identically zero, the drift of that component is dropped from the transition", DENSE)
+        S.absorb(it3)
+    except (AnalysisError, RaiseSignal) as e:
+        r4.unknown(name, f"not analysed: {e}", DENSE)
